@@ -14,6 +14,7 @@ TRUSTED_BASE = [
     "Lean 4.33 kernel; axioms of every property theorem within {propext, Classical.choice, Quot.sound} (audited by #print axioms on every run)",
     "the hand-written Lean model is tied to /repo by differential testing (this run's correspondence stream); it samples, it is not a proof about the Python code",
     "tools/extract.py finds constants/tables in /repo/src; what it emits is re-checked by lake build",
+    "where a property has *_source_* theorems: the tools/extract_*.py translators (Python ast -> PyLite terms, regenerated on this run; anything outside the fragment is a Miss = broken tie), the PyLite interpreter (Model/PyLite*.lean) as the meaning of the Python fragment, the object encodings of the Lemmas/*Src*.lean files and the stated meaning of library primitives",
     "Python object identity -> indices, exceptions -> Err, recursion -> fuel, floats -> Rat, datetime -> rational days, the clock -> a scripted function",
 ]
 
